@@ -153,6 +153,22 @@ func genData(g *rand.Rand) (phaseA, phaseB []refql.Pt) {
 			phaseB = append(phaseB, mk(m, ts+1+g.Int63n(step/4+1)))
 		}
 	}
+	// points exactly on hour boundaries: the first nanosecond of a shard group
+	// (1h and 2h groups in the many-shard layouts)
+	{
+		hour := int64(3600 * 1e9)
+		taken := map[int64]bool{}
+		for _, p := range phaseA {
+			taken[p.T] = true
+		}
+		for k := int64(0); k < 7; k++ {
+			bt := (t0/hour+1)*hour + k*hour
+			if taken[bt] || g.Intn(4) == 0 {
+				continue
+			}
+			phaseA = append(phaseA, mk([]string{"cpu", "mem"}[g.Intn(2)], bt))
+		}
+	}
 	// phase B must not collide in time with another series' point
 	used := map[string]map[int64]string{"cpu": {}, "mem": {}}
 	for _, p := range phaseA {
@@ -331,6 +347,9 @@ func genStmt(g *rand.Rand) (refql.Stmt, bool) {
 	case 1: // aligned to hours
 		a = a / int64(3600*1e9) * int64(3600*1e9)
 		b = b/int64(3600*1e9)*int64(3600*1e9) + int64(3600*1e9) - 1
+		if g.Intn(2) == 0 {
+			b++ // inclusive upper bound exactly on the first nanosecond of the next hour
+		}
 	}
 	if b-a < int64(60*1e9) {
 		b = a + int64(3600*1e9)
